@@ -140,9 +140,21 @@ func runReplay(in, out, scratch string) error {
 		if err := json.Unmarshal(jb, &job); err != nil {
 			return err
 		}
-		results, crashed, err := runGrpcJobs([]grpcJob{job}, scratch, 1)
+		jobs := []grpcJob{job}
+		if ps := rstr(rp, "plain"); ps != "" && job.Kind == "syn" {
+			jobs = append(jobs, grpcJob{Kind: "syn", ID: job.ID + 1, S: ps})
+		}
+		results, crashed, err := runGrpcJobs(jobs, scratch, 1)
 		if err != nil {
 			return err
+		}
+		var plain *grpcResult
+		if len(jobs) == 2 {
+			for i := range results {
+				if results[i].ID == job.ID+1 {
+					plain = &results[i]
+				}
+			}
 		}
 		for range crashed {
 			res.add(violation{Clause: pre + ":total", Detail: "grpc-server-crash", Msg: "the process died while serving the request", Replay: rp})
@@ -152,7 +164,13 @@ func runReplay(in, out, scratch string) error {
 				return fmt.Errorf("%s", r.Err)
 			}
 			if job.Kind == "syn" {
-				judgeSyn(res, job.S, rint(rp, "acc"), "canon", r)
+				if r.ID == job.ID {
+					mode := "canon"
+					if plain != nil {
+						mode = "kw:?"
+					}
+					judgeSyn(res, job.S, rint(rp, "acc"), mode, r, plain, rstr(rp, "plain"))
+				}
 				continue
 			}
 			for k, sr := range r.Subs {
